@@ -1,10 +1,10 @@
 use crate::util::*;
 use trusttunnel::verif::icmp;
 
-/// in: bytes. out: [checksum]
+/// in: bytes. out: [0,checksum] (two numbers, so that no checksum value reads as a sentinel)
 pub fn checksum(toks: Vec<Tok>) -> Vec<Tok> {
     let b = toks.first().map(bytes).unwrap_or_default();
-    vec![vec![icmp::rfc1071_checksum(&b) as u128]]
+    vec![vec![0, icmp::rfc1071_checksum(&b) as u128]]
 }
 
 /// in: [v6, id, seq] data. out: serialized bytes
@@ -84,7 +84,7 @@ pub fn parse_message(toks: Vec<Tok>) -> Vec<Tok> {
     }
 }
 
-/// in: [id1, seq1] data1 [id2, seq2] data2. out: [0|1]
+/// in: [id1, seq1] data1 [id2, seq2] data2. out: [keys equal, a waiter stored under the first key is found by the second]
 pub fn echo_eq(toks: Vec<Tok>) -> Vec<Tok> {
     let d1 = bytes(&toks[1]);
     let d2 = bytes(&toks[3]);
@@ -92,5 +92,9 @@ pub fn echo_eq(toks: Vec<Tok>) -> Vec<Tok> {
         (toks[0][0] as u16, toks[0][1] as u16, &d1),
         (toks[2][0] as u16, toks[2][1] as u16, &d2),
     );
-    vec![vec![r as u128]]
+    let f = icmp::echo_waiter_found(
+        (toks[0][0] as u16, toks[0][1] as u16, &d1),
+        (toks[2][0] as u16, toks[2][1] as u16, &d2),
+    );
+    vec![vec![r as u128, f as u128]]
 }
